@@ -81,9 +81,9 @@ class Ctx:
         if len(self.samples) < limit:
             self.samples.append(json.loads(json.dumps(obj, default=_jsonable)))
 
-    def note(self, key: str, value) -> None:
+    def note(self, key: str, value, cap: int = 2000) -> None:
         cur = self.info.setdefault(key, [])
-        if value not in cur and len(cur) < 60:
+        if value not in cur and len(cur) < cap:
             cur.append(value)
 
     def violation(self, clause: str, what: str, case=None, situation=None, **extra) -> None:
